@@ -76,6 +76,7 @@ mod with_std {
     }
 
     /// Like [`dispatch_unregistered`], for a reference-counted collector.
+    #[cfg(not(feature = "portable-atomic"))]
     pub fn dispatch_unregistered_arc(c: Arc<dyn Collect + Send + Sync>) -> Dispatch {
         Dispatch::verif_unregistered_arc(c)
     }
